@@ -353,11 +353,22 @@ Fixpoint write_keys (avail : list xkey) (ks : list xkey) : list xkey * str :=
   | k :: r => let '(a1, t1) := write_key avail k in
               let '(a2, t2) := write_keys a1 r in (a2, t1 ++ t2)
   end.
+(* a written key whose format none of the segment's keys has can only be revoked with
+   METHOD=NONE, which revokes all keys; the segment's keys are then written again *)
+Definition stale_keys (avail : list xkey) (keys : list xkey) : bool :=
+  existsb is_some keys
+  && existsb (fun old => match old with
+                         | Some o => negb (existsb (fun k => match k with Some kk => same_fmt kk o | None => false end) keys)
+                         | None => false
+                         end) avail.
 Fixpoint write_segments (avail : list xkey) (segs : list Segment) : str :=
   match segs with
   | [] => []
-  | s :: r => let '(a, t) := write_keys avail (sg_keys s) in
-              t ++ print_segment s ++ write_segments a r
+  | s :: r =>
+      let stale := stale_keys avail (sg_keys s) in
+      let avail0 := if stale then [] else avail in
+      let '(a, t) := write_keys avail0 (sg_keys s) in
+      (if stale then nl (print_xkey None) else []) ++ t ++ print_segment s ++ write_segments a r
   end.
 
 Definition print_media (p : MediaPlaylist) : str :=
